@@ -60,7 +60,7 @@ def project(js, errors, instance=None, probe_index=False):
                 for k, v in inst.items():
                     out.append((path, k))
                     out += elements(v, path + [k])
-            elif isinstance(inst, list):
+            elif isinstance(inst, (list, tuple)):
                 for i, v in enumerate(inst):
                     out.append((path, i))
                     out += elements(v, path + [i])
@@ -107,6 +107,18 @@ def real_cases(task):
         I = g.instance(S)
     try:
         cls.check_schema(S)
+        if rng.random() < 0.12:
+            # the documented tuples-as-arrays use: a class from extend() whose "array" admits tuples, and an instance
+            # whose arrays ARE tuples -- existing, error-free elements of a tuple index to an empty tree like any other
+            cls = js.validators.extend(cls, type_checker=cls.TYPE_CHECKER.redefine("array", lambda c, x: isinstance(x, (list, tuple))))
+
+            def tuplify(x):
+                if isinstance(x, list):
+                    return tuple(tuplify(v) for v in x)
+                if isinstance(x, dict):
+                    return {k: tuplify(v) for k, v in x.items()}
+                return x
+            I = tuplify(I)
         errors = list(cls(S).iter_errors(I))
     except Exception:
         return []
